@@ -718,6 +718,7 @@ static int vfork_rstack_idx;
 static int vfork_record_idx;
 static struct mcount_ret_stack vfork_rstack;
 static struct mcount_shmem vfork_shmem;
+static struct filter_control vfork_filter;
 
 static void prepare_vfork(struct mcount_thread_data *mtdp, struct mcount_ret_stack *rstack)
 {
@@ -726,6 +727,8 @@ static void prepare_vfork(struct mcount_thread_data *mtdp, struct mcount_ret_sta
 	vfork_mtdp = mtdp;
 	vfork_rstack_idx = mtdp->idx;
 	vfork_record_idx = mtdp->record_idx;
+	/* the child works on the filter state too (and leaves vfork() itself once more) */
+	vfork_filter = mtdp->filter;
 
 	mcount_memcpy4(&vfork_rstack, rstack, sizeof(*rstack));
 	/* it will be force flushed */
@@ -778,6 +781,7 @@ void mcount_restore_vfork(struct mcount_thread_data *mtdp)
 
 	mtdp->idx = vfork_rstack_idx;
 	mtdp->record_idx = vfork_record_idx;
+	mtdp->filter = vfork_filter;
 	rstack = &mtdp->rstack[mtdp->idx - 1];
 
 	mcount_vfork_parent = 0;
